@@ -725,6 +725,17 @@ pub fn gen_c13(o: &mut Out, tier: &str, seed: u64) {
             o.op_exp("other-key", "none", &format!("ae dec {} {}", hex(&k2), hex(&ct)));
         }
         o.op_exp("other-key", "none", &format!("ae dec {} {}", hex(&r.bytes(16)), hex(&ct)));
+        // the genuine bytes rearranged: nonce moved to the end, tag first, reversed, halves exchanged, every rotation by 4
+        {
+            let mut perms: Vec<Vec<u8>> = vec![];
+            let mut v = ct[12..].to_vec(); v.extend(&ct[..12]); perms.push(v);
+            let mut v = ct[20..].to_vec(); v.extend(&ct[..20]); perms.push(v);
+            let mut v = ct[..12].to_vec(); v.extend(&ct[20..]); v.extend(&ct[12..20]); perms.push(v);
+            let mut v = ct.to_vec(); v.reverse(); perms.push(v);
+            let mut v = ct[18..].to_vec(); v.extend(&ct[..18]); perms.push(v);
+            for k in (4..36).step_by(4) { let mut v = ct.to_vec(); v.rotate_left(k); perms.push(v); }
+            for p in perms { if p != ct.to_vec() { o.op_exp("rearranged", "none", &format!("ae dec {} {}", hex(&kb), hex(&p))); } }
+        }
         // lengths
         for len in [0usize, 12, 35, 37, 72] {
             let mut m = ct.to_vec(); m.resize(len, 0);
